@@ -166,3 +166,51 @@ def replay_resolve(inputs, obl):
     if problems:
         return dict(confirmed=True, detail='; '.join(problems[:3]))
     return dict(confirmed=False, detail='a callable applied through a function parameter is called once with the arguments')
+
+
+def replay_arity(inputs, obl):
+    """every function body over a small grammar: the arity the parser assigns must be the number of distinct x, y, z in the body,
+    and a Python call through klong[name] with that many arguments must be accepted"""
+    import itertools
+    from klongpy import KlongInterpreter
+    k = KlongInterpreter()
+    problems = []
+    atoms = ['x', 'y', 'z', '1', 'a']
+    mon = ['-', '#', ',', '|', '*', '&', '!', '~', '_', '%', '?', '<', '>', '=', '^', '$', ':_', ':#']
+    bodies = set()
+    for a in atoms:
+        bodies.add(a)
+        for m in mon:
+            bodies.add(m + a)
+            bodies.add('1+' + m + a)
+            bodies.add('(' + m + a + '),1')
+    for a, b in itertools.product(atoms, atoms):
+        bodies.add(a + '+' + b)
+        bodies.add(a + ',' + '-' + b)
+        bodies.add(':[' + a + ';' + b + ';1]')
+    for a, b, c in itertools.product(['x', 'y', 'z'], repeat=3):
+        bodies.add(f"{a}+-{b}*#{c}")
+    for body in sorted(bodies):
+        src = '{' + body + '}'
+        if '{x}' in body:
+            want = len({s for s in ('x', 'y', 'z') if s in body.replace('{x}', '')})
+        else:
+            want = len({s for s in ('x', 'y', 'z') if s in body})
+        try:
+            k('fq::' + src)
+            got = k._context[next(s for s, _ in k._context if str(s) == 'fq')].arity
+        except Exception as e:
+            continue
+        if got != want:
+            problems.append(f"{src} has arity {got}, its body mentions {want} of x, y, z")
+            if len(problems) >= 4:
+                break
+    try:
+        k('neg::{-x}')
+        if k['neg'](5) != -5:
+            problems.append("klong['neg'](5) for neg::{-x} did not return -5")
+    except Exception as e:
+        problems.append(f"klong['neg'](5) for neg::{{-x}} raised {type(e).__name__}: {e}")
+    if problems:
+        return dict(confirmed=True, detail='; '.join(problems[:4]))
+    return dict(confirmed=False, detail=f"{len(bodies)} function bodies: parser arity == number of distinct function variables")
